@@ -274,6 +274,11 @@ def run(ctx, rep):
            "the thunk path is addend-aware" if aware else
            "neither the thunk key (definition(local_symbol_id)), nor the thunk-relative value, nor the thunk's target (res.raw_value) depends on the relocation addend, and no guard tests it: `b sym+N` through a thunk lands on `sym`",
            mg.file, mg.line)
+    # ---- conservative range proof --------------------------------------------------------------------------------------
+    # Thunks are allocated for a (caller object, symbol) pair unless the branch is *provably* in range. The proof must hold for every
+    # branch site inside the caller object, so it has to be made from the object's far end: comparing the object's start against the
+    # branch range declares an object that straddles the limit "in range", no thunk is allocated and the link of a valid program fails.
+    conservative_range(ctx, rep, F, P)
     rep.assume("thunk placement (block positions vs. object sizes) is a runtime quantity and is not decided; the Adr/Add field encoders are decided by C13")
 
 
@@ -303,3 +308,52 @@ def _bytes_of(v):
     if hasattr(v, "args"):
         return _bytes_of(v.args)
     return None
+
+
+def conservative_range(ctx, rep, F, P):
+    from mir import callee_key, declared_key, expr_tree, op_place, render, simplify, stable
+    rep.rule("conservative-range", "every `< branch_range` proof in ThunkLayoutBuilder::process_primary_part_refs is made from the end of the caller's span (the argument that "
+             "receives the `.1` of the primary range), never from its start alone")
+    parent = "libwild::thunks::ThunkLayoutBuilder::process_primary_part_refs"
+    cls = F.closures_of(parent)
+    if not cls:
+        rep.lost("conservative-range", parent)
+        return
+    # which closure is the proof, and which of its parameters receives the span's end: read it from the call site
+    proof = end_param = start_param = None
+    for c in cls:
+        flow = P.flow(c)
+        for bi, t in flow.calls():
+            if (declared_key(t["f"]) or "") not in ("std::ops::Fn::call", "std::ops::FnMut::call_mut", "std::ops::FnOnce::call_once"):
+                continue
+            tgt = next((x for x in cls if x.key == (callee_key(t["f"]) or "")), None)
+            if tgt is None or tgt.locals[0].strip() != "bool" or len(t["args"]) < 2:
+                continue
+            tup = op_place(t["args"][1])
+            for d in flow.defs.get(tup[0], []) if tup else []:
+                if d[1] != "call" and d[3]["k"] == "agg":
+                    for i_, o in enumerate(d[3]["ops"]):
+                        r = render(simplify(expr_tree(P, c, o, depth=5, expand_params=0)))
+                        if r.endswith(".1"):
+                            proof, end_param = tgt, 2 + i_
+                        elif r.endswith(".0") and "@Some" in r:
+                            start_param = 2 + i_
+    if proof is None or end_param is None:
+        rep.lost("conservative-range", "the call of the range-proof closure with (start, end, symbol) taken from the primary range tuple")
+        return
+    end_name = proof.local_name(end_param) or f"_{end_param}"
+    start_name = (proof.local_name(start_param) or f"_{start_param}") if start_param else None
+    flow = P.flow(proof)
+    n = 0
+    for bi, blk in enumerate(proof.blocks):
+        for st in blk["s"]:
+            if st["k"] == "assign" and st["rv"]["k"] == "bin" and st["rv"]["op"] in ("Lt", "Le"):
+                rhs = render(simplify(expr_tree(P, proof, st["rv"]["b"], depth=5, expand_params=0)))
+                if "branch_range" not in rhs:
+                    continue
+                n += 1
+                lhs = render(simplify(expr_tree(P, proof, st["rv"]["a"], depth=8, expand_params=0)))
+                ok = end_name in lhs
+                rep.ob("conservative-range", f"proof#{n}", ok, f"in-range proof `{lhs[:120]} < {rhs}`" + ("" if ok else f" does not involve the end of the caller's span (`{end_name}`): an object that begins "
+                       "inside the range but extends beyond it is declared in range and gets no thunk"), proof.file, st["l"])
+    rep.floor("conservative-range", "`< branch_range` proofs", n, 2)
